@@ -110,6 +110,30 @@ def run(ctx):
                                     break
                     except Exception as e:  # noqa
                         ctx.report(f"C17:gaussian-raises:{sig}:{type(e).__name__}", f"fermionic GaussianSimulator raised {type(e).__name__}: {str(e)[:100]} for {names} on {occ}", replay)
+                # ---- the same behaviour executed incrementally: every observable of the intermediate state is READ, then the
+                # remaining gates are executed with initial_state = that state (a state must not remember stale derived quantities)
+                if len(idx) >= 2:
+                    cut = 1 + (total % (len(idx) - 1))
+                    for simname, mk, ok_gates in (("fock", lambda: pq.fermionic.PureFockSimulator(d=d, config=pq.Config(cutoff=d + 1)), True),
+                                                  ("gaussian", lambda: pq.fermionic.GaussianSimulator(d=d), all(gates[i]["gaussian"] for i in idx))):
+                        if not ok_gates:
+                            continue
+                        try:
+                            sim_ = mk()
+                            first = [pq.NumberState(occ).on_modes(*range(d))] + [gates[i]["mk"](pq).on_modes(*gates[i]["modes"]) for i in idx[:cut]]
+                            s1 = sim_.execute(pq.Program(instructions=first)).state
+                            _ = np.asarray(s1.covariance_matrix)
+                            for attr in ("fock_probabilities_map", "fock_probabilities", "correlation_matrix", "maj_correlation_matrix"):
+                                if hasattr(type(s1), attr):
+                                    _ = getattr(s1, attr)
+                            rest = [gates[i]["mk"](pq).on_modes(*gates[i]["modes"]) for i in idx[cut:]]
+                            s2 = sim_.execute(pq.Program(instructions=rest), initial_state=s1).state
+                            c2 = np.asarray(s2.covariance_matrix)
+                            if np.abs(c2 - sigma).max() > 1e-9:
+                                ctx.report(f"C17:{simname}:incremental:{sig}", f"fermionic {simname} simulator: executing {names[cut:]} on the state obtained from {names[:cut]} (after reading its "
+                                           f"covariance matrix and probabilities) gives a covariance that differs from the exact one (max {np.abs(c2 - sigma).max():.3g})", dict(replay, cut=cut))
+                        except Exception as e:  # noqa
+                            ctx.report(f"C17:{simname}:incremental-raises:{sig}:{type(e).__name__}", f"incremental execution raised {type(e).__name__}: {str(e)[:100]} for {names} on {occ}", replay)
             total += 1
             ctx.validated()
         if recs:
